@@ -8,6 +8,8 @@ directly: `tempBracketAtoms` of xraylib-parser.c:283-289.  (`parseSimple_ok` wit
 namespace XrlParser
 open Hand Spec
 
+variable {v : Variant}
+
 /-- the level has an element symbol directly (not only inside parentheses) -/
 def directAtom : Formula → Bool
   | .nil => false
@@ -87,8 +89,8 @@ theorem inv_ne {ca : Atoms} {f : Formula} {E : Elements} (h : Inv ca (f.eval E))
   simp at hz
 
 /-- the atom array after the symbol loop is empty exactly when it was and the level has no direct symbol -/
-theorem atomsLoop_isEmpty (T : Tables) (f : Formula) (hf : f.Shape) (hk : f.Known (elementsOf T)) :
-    ∀ (ca ca' : Atoms), atomsLoop T (ups f []) ca = .ok ca' → ca'.isEmpty = (ca.isEmpty && !directAtom f) := by
+theorem atomsLoop_isEmpty (T : Tables) (f : Formula) (hf : f.Shape) (hk : KnownV v (elementsOf T) f) :
+    ∀ (ca ca' : Atoms), atomsLoop v T (ups f []) ca = .ok ca' → ca'.isEmpty = (ca.isEmpty && !directAtom f) := by
   induction f with
   | nil => intro ca ca' h; simp only [ups, atomsLoop, Except.ok.injEq] at h; subst h; simp [directAtom]
   | atom sym sub rest ih =>
@@ -107,11 +109,11 @@ theorem atomsLoop_isEmpty (T : Tables) (f : Formula) (hf : f.Shape) (hk : f.Know
 
 /-- `groupsLoop_ok` with the number of blocks left behind -/
 theorem groupsLoop_leak (T : Tables) (rec : List Char → Except Fail (Atoms × Nat)) (N : Nat)
-    (hrec : ∀ g : Formula, g.WF (elementsOf T) → g.printL.length < N →
+    (hrec : ∀ g : Formula, WFV v (elementsOf T) g → g.printL.length < N →
       ∃ sub, rec g.printL = .ok (sub, leakOf g) ∧ Inv sub (g.eval (elementsOf T)))
-    (f : Formula) (hf : f.Shape) (hk : f.Known (elementsOf T)) (hlen : f.printL.length ≤ N) :
+    (f : Formula) (hf : f.Shape) (hk : KnownV v (elementsOf T) f) (hlen : f.printL.length ≤ N) :
     ∀ (ca : Atoms) (k : Nat) (g : Nat → Rat), Inv ca g →
-      ∃ ca', groupsLoop rec ((begs f []).zip (ens f [])) (ca, k) = .ok (ca', k + gLeak f ca.isEmpty) ∧
+      ∃ ca', groupsLoop v rec ((begs f []).zip (ens f [])) (ca, k) = .ok (ca', k + gLeak f ca.isEmpty) ∧
         Inv ca' (fun z => g z + evalG (elementsOf T) f z) := by
   induction f with
   | nil => intro ca k g h; exact ⟨ca, rfl, h.congr (by intro z; simp [evalG])⟩
@@ -126,9 +128,9 @@ theorem groupsLoop_leak (T : Tables) (rec : List Char → Except Fail (Atoms × 
     have hl : rest.printL.length ≤ N := by omega
     obtain ⟨sa, hr1, hr2⟩ := hrec inner ⟨hk.1, hf.1, hk.2.1⟩ (by omega)
     have hsub := subscript_ok (fun s => Err.convert s) hf.2.1 hk.2.2.1 (stop_printL hf.2.2 stop_nil)
-    have hv := sub_value_pos hk.2.2.1
-    have hsane : sa ≠ [] := inv_ne hr2 hk.1 hf.1 hk.2.1
-    have hstep : groupStep rec (ca, k)
+    have hv := sub_value_pos hk.2.2.1.1
+    have hsane : sa ≠ [] := inv_ne hr2 hk.1 hf.1 hk.2.1.known
+    have hstep : groupStep v rec (ca, k)
         ('(' :: (inner.printL ++ ')' :: (sub.print ++ (rest.printL ++ []))), ')' :: (sub.print ++ (rest.printL ++ [])))
         = .ok (addGroup ca sa sub.value, k + leakOf inner + (if ca.isEmpty then 1 else 0)) := by
       unfold groupStep
@@ -151,10 +153,10 @@ theorem groupsLoop_leak (T : Tables) (rec : List Char → Except Fail (Atoms × 
     omega
 
 theorem parseLevel_leak (T : Tables) (rec : List Char → Except Fail (Atoms × Nat)) (N : Nat)
-    (hrec : ∀ g : Formula, g.WF (elementsOf T) → g.printL.length < N →
+    (hrec : ∀ g : Formula, WFV v (elementsOf T) g → g.printL.length < N →
       ∃ sub, rec g.printL = .ok (sub, leakOf g) ∧ Inv sub (g.eval (elementsOf T)))
-    (f : Formula) (hwf : f.WF (elementsOf T)) (hlen : f.printL.length ≤ N) :
-    ∃ ca, parseLevel T rec f.printL = .ok (ca, leakOf f) ∧ Inv ca (f.eval (elementsOf T)) := by
+    (f : Formula) (hwf : WFV v (elementsOf T) f) (hlen : f.printL.length ≤ N) :
+    ∃ ca, parseLevel v T rec f.printL = .ok (ca, leakOf f) ∧ Inv ca (f.eval (elementsOf T)) := by
   obtain ⟨hne, hf, hk⟩ := hwf
   obtain ⟨p, hp⟩ := pass1_top f hf [] [] [] [] '\x00'
   simp only [List.append_nil, List.nil_append, pass1] at hp
@@ -164,7 +166,7 @@ theorem parseLevel_leak (T : Tables) (rec : List Char → Except Fail (Atoms × 
   refine ⟨ca, ?_, hg2.congr (by intro z; rw [eval_split]; ring)⟩
   unfold parseLevel
   rw [if_neg (by rw [first_char_ok hne hf]; simp)]
-  have hp' : pass1 f.printL '\x00' {} = .ok ⟨0, ups f [], begs f [], ens f []⟩ := hp
+  have hp' : pass1 v f.printL '\x00' {} = .ok ⟨0, ups f [], begs f [], ens f []⟩ := hp
   simp only [hp', scan_nonempty hne, ha1, hg1]
   simp only [List.isEmpty_nil, Bool.true_and] at hemp
   rw [hemp, gLeak_level hne]
@@ -172,19 +174,19 @@ theorem parseLevel_leak (T : Tables) (rec : List Char → Except Fail (Atoms × 
 
 /-- `CompoundParserSimple` on a printed well-formed formula leaves exactly `leakOf f` blocks behind -/
 theorem parseSimple_leak (T : Tables) :
-    ∀ (fuel : Nat) (f : Formula), f.WF (elementsOf T) → f.printL.length < fuel →
-      ∃ ca, parseSimple T fuel f.printL = .ok (ca, leakOf f) ∧ Inv ca (f.eval (elementsOf T)) := by
+    ∀ (fuel : Nat) (f : Formula), WFV v (elementsOf T) f → f.printL.length < fuel →
+      ∃ ca, parseSimple v T fuel f.printL = .ok (ca, leakOf f) ∧ Inv ca (f.eval (elementsOf T)) := by
   intro fuel
   induction fuel with
   | zero => intro f _ h; omega
   | succ n ih =>
     intro f hwf hlen
-    exact parseLevel_leak T (parseSimple T n) n ih f hwf (by omega)
+    exact parseLevel_leak T (parseSimple v T n) n ih f hwf (by omega)
 
 /-- blocks still allocated after a successful parse by the shipped code and `FreeCompoundData` (or after the
     rejection for a missing atomic weight with repair C07-2): what `CompoundParserSimple` left behind -/
-theorem compoundParser_live_ok (v : Variant) (hv : v.leakFix = false) (T : Tables) (l : Locale) (s : List Char)
-    {ca : Atoms} {k : Nat} (h : parseSimple T (s.length + 1) s = .ok (ca, k)) :
+theorem compoundParser_live_ok (hv : v.leakFix = false) (T : Tables) (l : Locale) (s : List Char)
+    {ca : Atoms} {k : Nat} (h : parseSimple v T (s.length + 1) s = .ok (ca, k)) :
     liveAfterFree (compoundParser v T l (some s)) = k := by
   simp only [compoundParser, h, hv, Bool.false_eq_true, if_false]
   split <;> simp [liveAfterFree]
